@@ -26,11 +26,16 @@ def showPoints (pts : List (Bytes × Nat)) : String :=
   if pts.length > 64 then "#" ++ toString pts.length ++ ":" ++ toHex (sha256 (showPointsFull pts).toUTF8.toList)
   else showPointsFull pts
 
+/-- long lists are dumped as `#<count>:<sha256 of the full text>` -/
+def abbrevList (l : List String) : String :=
+  if l.length > 64 then "#" ++ toString l.length ++ ":" ++ toHex (sha256 (joinWith "," l).toUTF8.toList)
+  else joinWith "," l
+
 def showBatch (b : Batch) : String :=
   "{c=" ++ toString b.committee ++ ";rh=" ++ hexOrDash b.receiptHash ++
-  ";o=" ++ joinWith "," (b.orders.map fun o => toString o.amount ++ ":" ++ toString o.requested ++ ":" ++ hexOrDash o.addr ++ ":" ++ hexOrDash o.id) ++
-  ";d=" ++ joinWith "," (b.deposits.map fun d => toString d.amount ++ ":" ++ hexOrDash d.addr ++ ":" ++ hexOrDash d.id) ++
-  ";w=" ++ joinWith "," (b.withdrawals.map fun w => toString w.percent ++ ":" ++ hexOrDash w.addr ++ ":" ++ hexOrDash w.id) ++
+  ";o=" ++ abbrevList (b.orders.map fun o => toString o.amount ++ ":" ++ toString o.requested ++ ":" ++ hexOrDash o.addr ++ ":" ++ hexOrDash o.id) ++
+  ";d=" ++ abbrevList (b.deposits.map fun d => toString d.amount ++ ":" ++ hexOrDash d.addr ++ ":" ++ hexOrDash d.id) ++
+  ";w=" ++ abbrevList (b.withdrawals.map fun w => toString w.percent ++ ":" ++ hexOrDash w.addr ++ ":" ++ hexOrDash w.id) ++
   ";ps=" ++ toString b.poolSize ++ ";cps=" ++ toString b.counterPoolSize ++
   ";pp=" ++ showPoints b.poolPoints ++ ";tp=" ++ toString b.totalPoolPoints ++
   ";r=" ++ joinWith "," (b.receipts.map toString) ++ ";lh=" ++ toString b.lockedHeight ++
@@ -116,6 +121,10 @@ def parseOp (ws : List String) : Option Op :=
   | ["fund", a, n] => do pure (.fund (← ofHex a) (← nat? n))
   | ["setpool", id, amt, tot, pts] => do
     pure (.setPool (← nat? id) { amount := ← nat? amt, points := ← parsePoints pts, total := ← nat? tot })
+  | ["seednext", c, b] => do
+    match ← parseBatch b with
+    | some b => pure (.seedNext (← nat? c) b)
+    | none => none
   | ["create", c, id, seller, amt, req, recv, data] => do
     pure (.create { chain := ← nat? c, id := ← ofHex id, seller := ← ofHex seller, amount := ← nat? amt,
                     requested := ← nat? req, sellerRecv := ← ofHex recv, data := ← ofHex data })
